@@ -193,6 +193,20 @@ func (h *hbState) access(fr *frame, addr *value, isWrite bool) {
 	h.check(fr, loc, isWrite, "memory cell")
 }
 
+// accessNative records an access made on behalf of fr (the calling repository function) by a library
+// function that the engine models natively.
+func (h *hbState) accessNative(fr *frame, addr *value, isWrite bool, what string) {
+	if fr.g != nil && fr.g.atomicDepth > 0 {
+		return
+	}
+	loc := h.locs[addr]
+	if loc == nil {
+		loc = &hbLoc{}
+		h.locs[addr] = loc
+	}
+	h.check(fr, loc, isWrite, what)
+}
+
 func (h *hbState) accessObj(fr *frame, m *omap, isWrite bool) {
 	if fr.g != nil && fr.g.atomicDepth > 0 {
 		return
